@@ -12,6 +12,8 @@ PINNED_TEXT = [
     "\\", "\r\n", "a\rb", "\t\tselect\t1", "﻿select 1", "select 1   x", "x́", "{{", "{% x %}", "--",
     "/*", "*/", "1e", "1.e5.3", "a.b.c.d", "@@x", "$1", ":x", "?", "select * from t where a = 'it''s'",
     "SELECT a FROM t WHERE (((a = 1", "select 1 union select", "create table t (a int", "select   1",
+    ";", ";;", "  ;\nSELECT 1;\n", "-- c\n;\nSELECT 1\n", ";WITH c AS (SELECT 1) SELECT * FROM c", "/* c */ ; -- d\n", ",", ")",
+    "SELECT '" + "x" * 150 + "' AS long_literal -- " + "c" * 140 + "\n", "SELECT 1" + " " * 130 + "FROM t\n",
 ]
 
 
